@@ -40,7 +40,7 @@ def gen_cases(tier: str, seed: int) -> list[dict]:
     for nrows in (1, 2):
         for c in range(chunks):
             cases.append({"kind": "pollers2", "nrows": nrows, "chunk": c, "chunks": chunks, "seed": seed, "sample": 300 if tier == "quick" else 4000})
-    cases += [{"kind": "pollers3", "i": i, "seed": seed, "runs": 30} for i in range(8 if tier == "quick" else 80)]
+    cases += [{"kind": "pollers3", "i": i, "seed": seed, "runs": 30} for i in range(8 if tier == "quick" else 450)]
     cases += [{"kind": "poison", "i": i, "seed": seed} for i in range(4 if tier == "quick" else 30)]
     return cases
 
